@@ -4,7 +4,7 @@ PROPS = {}
 
 PROPS['C07'] = dict(
   level='proof',
-  verus=[dict(unit='chanq', min_functions=10), dict(unit='ops', min_functions=2), dict(unit='splitcopy', min_functions=1), dict(unit='launchc', min_functions=1), dict(unit='parserret', min_functions=1)],
+  verus=[dict(unit='chanq', min_functions=10), dict(unit='ops', min_functions=2), dict(unit='splitcopy', min_functions=1), dict(unit='launchc', min_functions=1), dict(unit='parserret', min_functions=1), dict(unit='literalc', min_functions=1)],
   kani=[],
   not_decided=['resumption of a blocked synchronous sender is the scheduler\'s (C08), not decided here'],
 )
@@ -57,7 +57,7 @@ PROPS['C04'] = dict(
 
 PROPS['C01'] = dict(
   level='proof',
-  verus=[dict(unit='ops', min_functions=20), dict(unit='native', min_functions=3), dict(unit='retops', min_functions=1), dict(unit='mapops', min_functions=1), dict(unit='iterops', min_functions=2), dict(unit='launchops', min_functions=1), dict(unit='funcc', min_functions=1), dict(unit='compilerd', min_functions=2), dict(unit='forc', min_functions=1), dict(unit='prattops', min_functions=8), dict(unit='prattloop', min_functions=1), dict(unit='calls', min_functions=4), dict(unit='scopec', min_functions=8), dict(unit='parserblk', min_functions=2), dict(unit='parserd', min_functions=6), dict(unit='limitsc', min_functions=2), dict(unit='parserret', min_functions=5), dict(unit='parserasg', min_functions=4), dict(unit='parserloop', min_functions=2), dict(unit='parserstmt', min_functions=1), dict(unit='parsertry', min_functions=1), dict(unit='launchc', min_functions=1)],
+  verus=[dict(unit='ops', min_functions=20), dict(unit='native', min_functions=3), dict(unit='retops', min_functions=1), dict(unit='mapops', min_functions=1), dict(unit='iterops', min_functions=2), dict(unit='launchops', min_functions=1), dict(unit='funcc', min_functions=1), dict(unit='compilerd', min_functions=2), dict(unit='forc', min_functions=1), dict(unit='prattops', min_functions=8), dict(unit='prattloop', min_functions=1), dict(unit='calls', min_functions=4), dict(unit='scopec', min_functions=8), dict(unit='parserblk', min_functions=2), dict(unit='parserd', min_functions=6), dict(unit='limitsc', min_functions=2), dict(unit='parserret', min_functions=5), dict(unit='parserasg', min_functions=4), dict(unit='parserloop', min_functions=2), dict(unit='parserstmt', min_functions=1), dict(unit='parsertry', min_functions=1), dict(unit='launchc', min_functions=1), dict(unit='methodc', min_functions=2), dict(unit='literalc', min_functions=5)],
   kani=[dict(crate='front', harnesses=['proofs::o01_p_infix_table', 'proofs::o01_p_infix_action', 'proofs::o01_p_prefix_action', 'proofs::o01_p_higher', 'proofs::o01_p_prefix_table'], kind='complete', assumption_ids=['A-kani']),
         dict(crate='value', harnesses=['proofs::o14_6_falsey', 'proofs::o14_3_num_eq_ieee'], features='', kind='complete', assumption_ids=['A-kani']),
         dict(crate='value', harnesses=['proofs::o14_6_falsey', 'proofs::o14_3_num_eq_ieee'], features='nan_boxing', kind='complete', assumption_ids=['A-kani'])],
@@ -74,7 +74,7 @@ PROPS['C02'] = dict(
 )
 PROPS['C03'] = dict(
   level='proof',
-  verus=[dict(unit='ops', min_functions=10), dict(unit='peephole', min_functions=2), dict(unit='klass', min_functions=4), dict(unit='calls', min_functions=1), dict(unit='ncall', min_functions=1), dict(unit='propcomp', min_functions=9), dict(unit='fieldsc', min_functions=1), dict(unit='classc', min_functions=1), dict(unit='compilerd', min_functions=1), dict(unit='splitcopy', min_functions=1)],
+  verus=[dict(unit='ops', min_functions=10), dict(unit='peephole', min_functions=2), dict(unit='klass', min_functions=4), dict(unit='calls', min_functions=1), dict(unit='ncall', min_functions=1), dict(unit='propcomp', min_functions=9), dict(unit='fieldsc', min_functions=1), dict(unit='classc', min_functions=1), dict(unit='compilerd', min_functions=1), dict(unit='splitcopy', min_functions=1), dict(unit='methodc', min_functions=2)],
   not_decided=['compile-time field numbering vs run-time Field order: emit_fields emits the Field instructions in the order find_known_field numbers them (fieldsc unit) and op_field / add_field give slots in arrival order (ops, klass); the initialiser is compiled before emit_fields and the methods after, with the new class current for exactly its members (classc unit), meta classes (meta_from_super), is_subclass (pointer recursion)',
                'A-heap: in the ops unit the class tables are abstract functions; that a field keeps its slot and a subclass extends its parent numbering is proved in the klass unit; A-slot'],
 )
